@@ -100,8 +100,11 @@ class Exec(ExprMixin, CallMixin, StmtMixin):
         self.exits = []
         for o in outs:
             self.finish(o, pre_env)
+        extra = list(S.GLOBAL_AXIOMS)
+        for th in self.con.theories:
+            extra += S.THEORIES[th]
         for ob in self.obligations:
-            ob.hyps.extend(S.GLOBAL_AXIOMS)
+            ob.hyps.extend(extra)
         # abstract string literals met in this function are pairwise distinct
         lits = sorted(self.str_literals)
         if len(lits) > 1 or (lits and "" not in lits):
